@@ -2,7 +2,7 @@
    tree.inmsg set, placeholderize), and the inverse of placeholderize on well-formed children:
    [unplz] rebuilds the list itemList returned -- every run of text / html-tag children is one
    raw text, every placeholder is its command. *)
-From Soy Require Import Model.Bytes Model.Outcome Model.Ast Model.Token Model.RawText Model.ExprParser Model.Parser Generated.Tables
+From Soy Require Import Model.Bytes Model.Outcome Model.Num Model.Ast Model.Token Model.RawText Model.ExprParser Model.Parser Generated.Tables
   Model.AstPrint Model.AstPrintCmd
   Spec.ExprSyntax Spec.CmdSyntax Proofs.ExprParserRules Proofs.CmdRoundtripBase Proofs.CmdRoundtripRules Proofs.CmdRoundtripCall.
 From Coq Require Import Lia.
@@ -15,82 +15,139 @@ Definition is_textlike (x : node) : bool :=
   | NMsgPlaceholder _ _ (NMsgHtmlTag _ _) => true
   | _ => false
   end.
-Definition unwrap (x : node) : node := match x with NMsgPlaceholder _ _ c => c | _ => x end.
 Definition run_node (run : list node) : list node :=
   match run with [] => [] | _ :: _ => [NRawText (run_pos run) (run_text run)] end.
-Fixpoint unplz (run : list node) (l : list node) : list node :=
-  match l with
-  | [] => run_node run
-  | x :: r => if is_textlike x then unplz (run ++ [x]) r else run_node run ++ unwrap x :: unplz [] r
+Definition unplz_gen (un : node -> node) : list node -> list node -> list node :=
+  fix go (run : list node) (l : list node) {struct l} : list node :=
+    match l with
+    | [] => run_node run
+    | x :: r => if is_textlike x then go (run ++ [x]) r else run_node run ++ un x :: go [] r
+    end.
+(* a placeholder is its command; a {plural} child is the {plural} command parsePlural returned: the
+   case bodies before placeholderize *)
+Fixpoint unpl (x : node) : node :=
+  match x with
+  | NMsgPlaceholder _ _ c => c
+  | NMsgPlural p nm v cases dflt => NMsgPlural p nm v (map unpl cases) (unplz_gen unpl [] dflt)
+  | NMsgPluralCase cp cv b => NMsgPluralCase cp cv (unplz_gen unpl [] b)
+  | _ => x
   end.
+Definition unplz : list node -> list node -> list node := unplz_gen unpl.
 
-(* the local functions of Spec/CmdSyntax.v, at top level *)
-Fixpoint msg_toks (run : list node) (l : list node) : list tok :=
-  match l with
-  | [] => run_tok run
-  | x :: r =>
-      match x with
-      | NRawText _ _ => msg_toks (run ++ [x]) r
-      | NMsgPlaceholder _ _ (NMsgHtmlTag _ _) => msg_toks (run ++ [x]) r
-      | NMsgPlaceholder _ _ c => run_tok run ++ cmd_toks c ++ msg_toks [] r
-      | _ => run_tok run ++ msg_toks [] r
-      end
-  end.
+Lemma unplz_nil run : unplz run [] = run_node run.
+Proof. reflexivity. Qed.
+Lemma unplz_cons run x r : unplz run (x :: r) = if is_textlike x then unplz (run ++ [x]) r else run_node run ++ unpl x :: unplz [] r.
+Proof. reflexivity. Qed.
+Lemma unpl_plural p nm v cases dflt : unpl (NMsgPlural p nm v cases dflt) = NMsgPlural p nm v (map unpl cases) (unplz [] dflt).
+Proof. reflexivity. Qed.
+Lemma unpl_case cp cv b : unpl (NMsgPluralCase cp cv b) = NMsgPluralCase cp cv (unplz [] b).
+Proof. reflexivity. Qed.
+Global Opaque unplz.
+
+(* the children function of Spec/CmdSyntax.v at its instance *)
+Definition msg_toks : list node -> list node -> list tok := children_toks cmd_toks mtoks.
+Definition blist_toks (l : list node) : list tok := List.concat (map cmd_toks l).
 Lemma cmd_toks_msg p id meaning desc children :
   cmd_toks (NMsg p id meaning desc children) =
   [T_ldelim; kw pit_Msg p] ++
   (match meaning with [] => [] | _ => attr_toks v_meaning (quoted_attr meaning) end) ++
   attr_toks v_desc (quoted_attr desc) ++ [T_rdelim] ++ msg_toks [] children ++ close_tag pit_MsgEnd.
 Proof. reflexivity. Qed.
+Lemma cmd_toks_plural p nm v cases dflt :
+  cmd_toks (NMsgPlural p nm v cases dflt) = plural_toks p v (pcases_toks blist_toks cases) (blist_toks dflt).
+Proof. reflexivity. Qed.
+Lemma mtoks_plural p nm v cases dflt :
+  mtoks (NMsgPlural p nm v cases dflt) = plural_toks p v (List.concat (map mtoks cases)) (msg_toks [] dflt).
+Proof. reflexivity. Qed.
+Lemma mtoks_case cp cv b : mtoks (NMsgPluralCase cp cv b) = plural_case_head cp cv ++ msg_toks [] b.
+Proof. reflexivity. Qed.
+Lemma msg_toks_nil run : msg_toks run [] = run_tok run.
+Proof. reflexivity. Qed.
+
+(* ---- size (the measure of the induction of Proofs/CmdRoundtrip.v) ---- *)
+Fixpoint csize (n : node) : nat :=
+  match n with
+  | NList _ ns => S (list_sum (map csize ns))
+  | NLog _ x => S (csize x)
+  | NLetContent _ _ x => S (csize x)
+  | NIf _ conds => S (list_sum (map csize conds))
+  | NIfCond _ _ x => S (csize x)
+  | NFor _ _ _ x ie => S (csize x + match ie with Some y => csize y | None => 0 end)
+  | NSwitch _ _ cases => S (list_sum (map csize cases))
+  | NSwitchCase _ _ x => S (csize x)
+  | NCall _ _ _ _ params => S (list_sum (map csize params))
+  | NParamContent _ _ x => S (csize x)
+  | NMsg _ _ _ _ children => S (S (list_sum (map csize children)))
+  | NMsgPlaceholder _ _ c => S (csize c)
+  | NMsgPlural _ _ _ cases dflt => S (S (S (list_sum (map csize cases) + list_sum (map csize dflt))))
+  | NMsgPluralCase _ _ b => S (S (list_sum (map csize b)))
+  | _ => 1%nat
+  end.
+Definition lsize (l : list node) : nat := list_sum (map csize l).
+Lemma csize_pos x : (1 <= csize x)%nat.
+Proof. destruct x; cbn [csize]; lia. Qed.
+Lemma lsize_cons x r : lsize (x :: r) = (csize x + lsize r)%nat.
+Proof. reflexivity. Qed.
+Lemma lsize_app a c : lsize (a ++ c) = (lsize a + lsize c)%nat.
+Proof. unfold lsize. rewrite map_app, list_sum_app. reflexivity. Qed.
+
+(* placeholderize on a {plural}, with the local loops of Model/Parser.v at top level *)
+Definition plz_case (c : node) : node :=
+  match c with NMsgPluralCase cp cv b => NMsgPluralCase cp cv (plz_children b) | o => o end.
+Lemma plz_plural p nm v cases dflt :
+  plz (NMsgPlural p nm v cases dflt) = [NMsgPlural p [] v (map plz_case cases) (plz_children dflt)].
+Proof.
+  cbn [plz].
+  assert (L : forall l, (fix go (l : list node) : list node := match l with [] => [] | x :: r => plz x ++ go r end) l = plz_children l).
+  { induction l as [|x r IH]; [reflexivity|]. cbn [plz_children]. rewrite <- IH. reflexivity. }
+  rewrite L. reflexivity.
+Qed.
 
 Section WfMsg.
 Variable lexq : bstr -> list tok.
 Variable nameok : bstr -> Prop.
 Notation wf_cmd := (wf_cmd lexq nameok).
+Notation wf_mnode := (wf_mnode lexq nameok).
 
-Fixpoint wf_children (run : list node) (l : list node) : Prop :=
-  match l with
-  | [] => run_ok run
-  | x :: r =>
-      match x with
-      | NRawText _ _ => wf_children (run ++ [x]) r
-      | NMsgPlaceholder _ _ (NMsgHtmlTag _ _) => wf_children (run ++ [x]) r
-      | NMsgPlaceholder q nm c =>
-          run_ok run /\ nm = [] /\ q = pos_of c /\ is_rawtext c = false /\ wf_cmd true c /\ wf_children [] r
-      | _ => False
-      end
-  end.
+Definition wf_children : list node -> list node -> Prop := wf_children_gen (wf_cmd true) wf_mnode.
+Definition wf_blist (l : list node) : Prop := allP (wf_cmd true) l /\ no_adjacent_text l.
 Lemma wf_cmd_msg m p id meaning desc children : wf_cmd m (NMsg p id meaning desc children) <->
-  m = false /\ id = 0 /\ go_quote meaning <> None /\ go_quote desc <> None /\ wf_children [] children.
+  m = false /\ id = 0 /\ go_quote meaning <> None /\ go_quote desc <> None /\ wf_children [] children /\
+  (existsb is_plural children = true -> length children = 1%nat).
+Proof. reflexivity. Qed.
+Lemma wf_cmd_plural m p nm v cases dflt : wf_cmd m (NMsgPlural p nm v cases dflt) <->
+  m = true /\ nm = [] /\ wf_expr v /\ wf_pcases (fun l => allP (wf_cmd m) l /\ no_adjacent_text l) cases /\
+  (allP (wf_cmd m) dflt /\ no_adjacent_text dflt).
+Proof. reflexivity. Qed.
+Lemma wf_mnode_plural p nm v cases dflt : wf_mnode (NMsgPlural p nm v cases dflt) <->
+  nm = [] /\ wf_expr v /\ forallb is_pcase cases = true /\ allP wf_mnode cases /\ wf_children [] dflt.
+Proof. reflexivity. Qed.
+Lemma wf_mnode_case cp cv b : wf_mnode (NMsgPluralCase cp cv b) <->
+  (0 <= cv)%Z /\ in_int64 cv = true /\ wf_children [] b.
 Proof. reflexivity. Qed.
 
 (* one step of the children, by cases *)
 Lemma wf_children_cons run x r : wf_children run (x :: r) ->
   (is_textlike x = true /\ wf_children (run ++ [x]) r) \/
-  (is_textlike x = false /\ exists q c, x = NMsgPlaceholder q [] c /\ run_ok run /\ q = pos_of c /\ is_rawtext c = false /\
-                                       wf_cmd true c /\ wf_children [] r).
+  (is_textlike x = false /\ exists q c, x = NMsgPlaceholder q [] c /\ run_ok run /\ q = pos_of c /\ is_rawtext c = false /\ is_plural c = false /\
+                                       wf_cmd true c /\ wf_children [] r) \/
+  (is_textlike x = false /\ is_plural x = true /\ run_ok run /\ wf_mnode x /\ wf_children [] r).
 Proof.
   destruct x; try (intros H; exfalso; exact H).
   - intros H. left. split; [reflexivity | exact H].
-  - destruct x; try (intros (H1 & -> & H2 & H3 & H4 & H5); right; split; [reflexivity|]; do 2 eexists; split; [reflexivity|]; auto).
+  - destruct x; try (intros (H1 & -> & H2 & H3 & H3' & H4 & H5); right; left; split; [reflexivity|]; do 2 eexists; split; [reflexivity|]; auto 10);
+      try (intros (_ & _ & _ & _ & Hx & _); discriminate Hx).
     intros H. left. split; [reflexivity | exact H].
+  - intros (H1 & H2 & H3). right. right. split; [reflexivity|]. split; [reflexivity|]. auto.
 Qed.
 
 Lemma msg_toks_cons_text run x r : is_textlike x = true -> msg_toks run (x :: r) = msg_toks (run ++ [x]) r.
 Proof. destruct x; try discriminate; [reflexivity|]. destruct x; try discriminate. reflexivity. Qed.
-
-(* the items of the rebuilt list are the items of the children *)
-Lemma unplz_toks : forall l run, wf_children run l -> List.concat (map cmd_toks (unplz run l)) = msg_toks run l.
-Proof.
-  induction l as [|x r IH]; intros run Hw.
-  - cbn [unplz msg_toks]. destruct run; reflexivity.
-  - destruct (wf_children_cons _ _ _ Hw) as [[Ht Hw']|(Ht & q & c & -> & Hrun & Hq & Hrt & Hwc & Hw')].
-    + cbn [unplz]. rewrite Ht. rewrite msg_toks_cons_text by exact Ht. apply IH, Hw'.
-    + cbn [unplz]. rewrite Ht. rewrite map_app, concat_app. cbn [map List.concat unwrap]. rewrite (IH [] Hw').
-      assert (E : msg_toks run (NMsgPlaceholder q [] c :: r) = run_tok run ++ cmd_toks c ++ msg_toks [] r).
-      { destruct c; try reflexivity. discriminate Ht. }
-      rewrite E. f_equal. destruct run; [reflexivity|]. cbn [run_node map List.concat cmd_toks run_tok app]. reflexivity.
-Qed.
+Lemma msg_toks_cons_ph run q c r : is_textlike (NMsgPlaceholder q [] c) = false ->
+  msg_toks run (NMsgPlaceholder q [] c :: r) = run_tok run ++ cmd_toks c ++ msg_toks [] r.
+Proof. intros Ht. destruct c; try reflexivity. discriminate Ht. Qed.
+Lemma msg_toks_cons_plural run x r : is_plural x = true -> msg_toks run (x :: r) = run_tok run ++ mtoks x ++ msg_toks [] r.
+Proof. destruct x; try discriminate. reflexivity. Qed.
 
 Lemma plz_children_app l1 l2 : plz_children (l1 ++ l2) = plz_children l1 ++ plz_children l2.
 Proof. induction l1 as [|x l1 IH]; [reflexivity|]. cbn [app plz_children]. rewrite IH, app_assoc. reflexivity. Qed.
@@ -101,19 +158,8 @@ Proof.
 Qed.
 
 (* a command that is well-formed inside a {msg} is wrapped into an unnamed placeholder *)
-Lemma plz_cmd c : wf_cmd true c -> is_rawtext c = false -> plz c = [NMsgPlaceholder (pos_of c) [] c].
-Proof. destruct c; try (intros H; exfalso; exact H); try reflexivity. intros _ H. discriminate H. Qed.
-
-(* placeholderize gives the children back *)
-Lemma plz_unplz : forall l run, wf_children run l -> plz_children (unplz run l) = run ++ l.
-Proof.
-  induction l as [|x r IH]; intros run Hw.
-  - cbn [unplz]. rewrite app_nil_r. apply plz_run, Hw.
-  - destruct (wf_children_cons _ _ _ Hw) as [[Ht Hw']|(Ht & q & c & -> & Hrun & Hq & Hrt & Hwc & Hw')].
-    + cbn [unplz]. rewrite Ht. rewrite (IH _ Hw'), <- app_assoc. reflexivity.
-    + cbn [unplz]. rewrite Ht. rewrite plz_children_app, (plz_run run Hrun). cbn [plz_children unwrap].
-      rewrite (plz_cmd c Hwc Hrt), (IH [] Hw'), Hq. reflexivity.
-Qed.
+Lemma plz_cmd c : wf_cmd true c -> is_rawtext c = false -> is_plural c = false -> plz c = [NMsgPlaceholder (pos_of c) [] c].
+Proof. destruct c; try (intros H; exfalso; exact H); try reflexivity; [intros _ H; discriminate H | intros _ _ H; discriminate H]. Qed.
 
 Lemma run_node_wf run : run_ok run -> allP (wf_cmd true) (run_node run).
 Proof. destruct run as [|f run]; [intros; exact I|]. intros (H1 & H2 & _). cbn [run_node allP]. split; [|exact I]. split; assumption. Qed.
@@ -121,36 +167,87 @@ Proof. destruct run as [|f run]; [intros; exact I|]. intros (H1 & H2 & _). cbn [
 Lemma allP_app {A} (P : A -> Prop) l1 l2 : allP P l1 -> allP P l2 -> allP P (l1 ++ l2).
 Proof. induction l1 as [|x l1 IH]; [auto|]. intros [H1 H2] H3. split; auto. Qed.
 
-Lemma unplz_wf : forall l run, wf_children run l -> allP (wf_cmd true) (unplz run l).
-Proof.
-  induction l as [|x r IH]; intros run Hw.
-  - apply run_node_wf, Hw.
-  - destruct (wf_children_cons _ _ _ Hw) as [[Ht Hw']|(Ht & q & c & -> & Hrun & Hq & Hrt & Hwc & Hw')].
-    + cbn [unplz]. rewrite Ht. apply IH, Hw'.
-    + cbn [unplz]. rewrite Ht. apply allP_app; [apply run_node_wf, Hrun|]. split; [exact Hwc | apply IH, Hw'].
-Qed.
+(* what the inverse gives, on children / on the cases of a {plural} child *)
+Definition unplz_ok (run l : list node) : Prop :=
+  blist_toks (unplz run l) = msg_toks run l /\
+  plz_children (unplz run l) = run ++ l /\
+  wf_blist (unplz run l) /\
+  (lsize (unplz run l) <= match run with [] => 0 | _ :: _ => 1 end + lsize l)%nat.
+Definition uncases_ok (cases : list node) : Prop :=
+  pcases_toks blist_toks (map unpl cases) = List.concat (map mtoks cases) /\
+  map plz_case (map unpl cases) = cases /\
+  wf_pcases wf_blist (map unpl cases) /\
+  (lsize (map unpl cases) <= lsize cases)%nat.
 
-(* no two raw texts meet: a rebuilt raw text is followed by a command or by nothing *)
-Lemma unplz_no_adjacent : forall l run, wf_children run l -> no_adjacent_text (unplz run l).
-Proof.
-  induction l as [|x r IH]; intros run Hw.
-  - cbn [unplz]. destruct run; cbn; auto.
-  - destruct (wf_children_cons _ _ _ Hw) as [[Ht Hw']|(Ht & q & c & -> & Hrun & Hq & Hrt & Hwc & Hw')].
-    + cbn [unplz]. rewrite Ht. apply IH, Hw'.
-    + cbn [unplz]. rewrite Ht. cbn [unwrap]. specialize (IH [] Hw').
-      assert (Hc : no_adjacent_text (c :: unplz [] r)).
-      { cbn [no_adjacent_text]. split; [|exact IH]. destruct (unplz [] r); [exact I|]. rewrite Hrt. reflexivity. }
-      destruct run; [exact Hc|]. cbn [run_node app no_adjacent_text]. split; [|exact Hc].
-      rewrite Hrt. apply andb_false_r.
-Qed.
+Lemma no_adjacent_cmd c l : is_rawtext c = false -> no_adjacent_text l -> no_adjacent_text (c :: l).
+Proof. intros Hc Hl. cbn [no_adjacent_text]. split; [|exact Hl]. destruct l; [exact I|]. rewrite Hc. reflexivity. Qed.
+Lemma no_adjacent_run run c l : is_rawtext c = false -> no_adjacent_text (c :: l) -> no_adjacent_text (run_node run ++ c :: l).
+Proof. intros Hc Hl. destruct run; [exact Hl|]. cbn [run_node app no_adjacent_text]. split; [|exact Hl]. rewrite Hc. apply andb_false_r. Qed.
+Lemma lsize_run_node run : lsize (run_node run) = match run with [] => 0%nat | _ :: _ => 1%nat end.
+Proof. destruct run; reflexivity. Qed.
+Lemma blist_run_node run : blist_toks (run_node run) = run_tok run.
+Proof. destruct run; reflexivity. Qed.
+Lemma blist_app a c : blist_toks (a ++ c) = blist_toks a ++ blist_toks c.
+Proof. unfold blist_toks. rewrite map_app, concat_app. reflexivity. Qed.
 
-(* the plural check of parseMsg passes: no child is a plural *)
-Lemma wf_children_no_plural : forall l run, wf_children run l -> existsb is_plural l = false.
+Lemma unplz_all : forall n l run, (lsize l <= n)%nat -> wf_children run l -> unplz_ok run l.
 Proof.
-  induction l as [|x r IH]; intros run Hw; [reflexivity|].
-  destruct (wf_children_cons _ _ _ Hw) as [[Ht Hw']|(Ht & q & c & -> & Hrun & Hq & Hrt & Hwc & Hw')].
-  - cbn [existsb]. rewrite (IH _ Hw'). destruct x; try discriminate Ht; reflexivity.
-  - cbn [existsb is_plural orb]. apply (IH _ Hw').
+  induction n as [|n IHn].
+  - intros l run Hsz Hw. destruct l as [|x r].
+    + unfold unplz_ok. rewrite unplz_nil, msg_toks_nil, app_nil_r, blist_run_node, lsize_run_node.
+      split; [reflexivity|]. split; [apply plz_run, Hw|]. split; [|cbn; lia].
+      split; [apply run_node_wf, Hw | destruct run; cbn; auto].
+    + rewrite lsize_cons in Hsz. pose proof (csize_pos x). lia.
+  - induction l as [|x r IH]; intros run Hsz Hw.
+    + unfold unplz_ok. rewrite unplz_nil, msg_toks_nil, app_nil_r, blist_run_node, lsize_run_node.
+      split; [reflexivity|]. split; [apply plz_run, Hw|]. split; [|cbn; lia].
+      split; [apply run_node_wf, Hw | destruct run; cbn; auto].
+    + rewrite lsize_cons in Hsz. pose proof (csize_pos x) as Hpx.
+      destruct (wf_children_cons _ _ _ Hw) as [[Ht Hw']|[(Ht & q & c & -> & Hrun & Hq & Hrt & Hnp & Hwc & Hw')|(Ht & Hpl & Hrun & Hwm & Hw')]].
+      * destruct (IH (run ++ [x]) ltac:(lia) Hw') as (T1 & T2 & T3 & T4).
+        unfold unplz_ok. rewrite unplz_cons, Ht, msg_toks_cons_text by exact Ht. rewrite lsize_cons.
+        split; [exact T1|]. split; [rewrite T2, <- app_assoc; reflexivity|]. split; [exact T3|].
+        assert (E : (match run ++ [x] with [] => 0 | _ :: _ => 1 end = 1)%nat) by (destruct run; reflexivity). rewrite E in T4.
+        destruct run; lia.
+      * destruct (IH [] ltac:(lia) Hw') as (T1 & T2 & (T3a & T3b) & T4). cbv iota in T4.
+        unfold unplz_ok. rewrite unplz_cons, Ht, msg_toks_cons_ph by exact Ht. cbn [unpl].
+        split; [|split; [|split]].
+        -- rewrite blist_app, blist_run_node. f_equal. unfold blist_toks in *. cbn [map List.concat]. rewrite T1. reflexivity.
+        -- rewrite plz_children_app, (plz_run run Hrun). cbn [plz_children]. rewrite (plz_cmd c Hwc Hrt Hnp), T2, Hq. reflexivity.
+        -- split.
+           ++ apply allP_app; [apply run_node_wf, Hrun|]. split; assumption.
+           ++ apply no_adjacent_run; [exact Hrt|]. apply no_adjacent_cmd; assumption.
+        -- rewrite lsize_app, lsize_run_node, !lsize_cons. cbn [csize]. destruct run; lia.
+      * destruct x; try discriminate Hpl. rename cases into cs, default into dflt.
+        destruct (proj1 (wf_mnode_plural _ _ _ _ _) Hwm) as (-> & Hwv & Hpcs & Hwcs & Hwd).
+        cbn [csize] in Hsz. fold (lsize cs) in Hsz. fold (lsize dflt) in Hsz.
+        destruct (IH [] ltac:(lia) Hw') as (T1 & T2 & (T3a & T3b) & T4). cbv iota in T4.
+        destruct (IHn dflt [] ltac:(lia) Hwd) as (D1 & D2 & D3 & D4). cbv iota in D4. cbn [app] in D2.
+        assert (HC : forall cs0, (lsize cs0 <= n)%nat -> forallb is_pcase cs0 = true -> allP wf_mnode cs0 -> uncases_ok cs0).
+        { induction cs0 as [|c0 r0 IHc]; intros Hs0 Hp0 Hw0.
+          - repeat split. cbn. lia.
+          - destruct Hw0 as [Hwc0 Hwr0]. cbn [forallb] in Hp0. apply andb_true_iff in Hp0. destruct Hp0 as [Hp0 Hpr0]. rewrite lsize_cons in Hs0. pose proof (csize_pos c0).
+            destruct (IHc ltac:(lia) Hpr0 Hwr0) as (C1 & C2 & C3 & C4).
+            destruct c0; try discriminate Hp0. destruct (proj1 (wf_mnode_case _ _ _) Hwc0) as (Hv0 & Hv1 & Hwb0).
+            cbn [csize] in Hs0. fold (lsize body) in Hs0.
+            destruct (IHn body [] ltac:(lia) Hwb0) as (B1 & B2 & B3 & B4). cbv iota in B4. cbn [app] in B2.
+            unfold uncases_ok. cbn [map]. rewrite unpl_case. split; [|split; [|split]].
+            + cbn [pcases_toks List.concat]. fold (pcases_toks blist_toks (map unpl r0)). rewrite C1, B1, mtoks_case, <- app_assoc. reflexivity.
+            + cbn [plz_case]. rewrite B2, C2. reflexivity.
+            + cbn [wf_pcases]. fold (wf_pcases wf_blist (map unpl r0)). auto.
+            + rewrite !lsize_cons. cbn [csize]. fold (lsize (unplz [] body)). fold (lsize body). lia. }
+        destruct (HC cs ltac:(lia) Hpcs Hwcs) as (C1 & C2 & C3 & C4).
+        unfold unplz_ok. rewrite unplz_cons, Ht, msg_toks_cons_plural by reflexivity. rewrite unpl_plural.
+        split; [|split; [|split]].
+        -- rewrite blist_app, blist_run_node. f_equal. unfold blist_toks at 1. cbn [map List.concat]. fold (blist_toks (unplz [] r)).
+           rewrite T1, cmd_toks_plural, mtoks_plural, C1, D1. reflexivity.
+        -- rewrite plz_children_app, (plz_run run Hrun). cbn [plz_children]. rewrite plz_plural, C2, D2, T2. reflexivity.
+        -- split.
+           ++ apply allP_app; [apply run_node_wf, Hrun|]. split; [|exact T3a].
+              apply wf_cmd_plural. repeat split; try assumption; try apply D3.
+           ++ apply no_adjacent_run; [reflexivity|]. apply no_adjacent_cmd; [reflexivity | exact T3b].
+        -- rewrite lsize_app, lsize_run_node, !lsize_cons. cbn [csize].
+           fold (lsize (map unpl cs)). fold (lsize (unplz [] dflt)). fold (lsize cs). fold (lsize dflt). destruct run; lia.
 Qed.
 End WfMsg.
 
@@ -181,7 +278,7 @@ Proof. intros H. unfold set_inmsg, set_ps. cbn [c_p c_ns c_al c_inmsg c_scans]. 
 Lemma Tag_msg k atoks meaning desc rd l contents u rd2 rest :
   t_typ k = pit_Msg -> msg_attrs atoks meaning desc -> t_typ rd = pit_RightDelim ->
   Body true u_msg l contents u (rd2 :: rest) -> t_typ rd2 = pit_RightDelim ->
-  existsb is_plural (plz_children (children_of contents)) = false ->
+  existsb is_plural (plz_children (children_of contents)) && negb (Nat.eqb (length (plz_children (children_of contents))) 1) = false ->
   Tag false (k :: atoks ++ rd :: l) (NMsg (t_pos k) 0 meaning desc (plz_children (children_of contents))) rest.
 Proof.
   intros Hk Hat Hrd HB Hrd2 Hpl s p0 sc0 Hs Hi Hm.
@@ -224,6 +321,6 @@ Proof.
     rewrite He3; cbn [cbind];
     change (set_inmsg (set_ps s p3 sc0) true) with (set_ps (set_inmsg s true) p3 sc0);
     rewrite (HF g g) by lia; cbn [cbind]; rewrite (set_inmsg_back s p4 sc4 (proj1 Hm));
-    rewrite Hpl; cbn [andb]; rewrite He5; reflexivity.
+    rewrite Hpl; rewrite He5; reflexivity.
 Qed.
 End Msg.
